@@ -65,6 +65,19 @@ def custom(ctx):
     evals = 0
     # plain build: result equivalence on many cases
     b = ctx.build("pinned")
+    # sequential pass over the shared-input cases: their self-checks (round trips of the
+    # thread-private variants, rotated lookups) must hold when nothing runs concurrently
+    conc_cases = [c for c in cases if c.startswith("conc_")]
+    rc, out, err = ctx.run_c(b, conc_cases)
+    evals += len(conc_cases)
+    flags = {}
+    for o in out:
+        for k, v in re.findall(r" (p_\w+|rot_rt)=(\d+)", o):
+            flags.setdefault(k, [0, 0])[int(v != "0")] += 1
+        if re.search(r" (p_\w+|rot_rt)=0", o):
+            failures.append(("pinned", o.split(" ->")[0], "self-check of a shared-input case fails sequentially: " + o[-200:], o))
+            break
+    info["self_checks"] = {k: {"fail": v[0], "ok": v[1]} for k, v in sorted(flags.items())}
     rounds = 2 if ctx.tier == "quick" else 6
     for r in range(rounds):
         rc, out, err = ctx.run_c(b, cases, args=["--threads", "16"])
@@ -116,7 +129,7 @@ PARTS = {
     "C17": dict(coq_props=["Properties_C17"],
                 files=["src/varintTagged.c", "src/varintExternal.c", "src/varintChained.c", "src/varintFOR.c"],
                 rule="every case of the stateless codec parts run sequentially and then by 16 threads concurrently "
-                     "(each thread runs all cases, staggered); outputs must equal the sequential ones; TSan build must "
+                     "(each thread runs all cases, staggered; then all threads run each shared-input case at the same moment, 6 times, with thread-dependent lookup order and thread-private shifted copies of the data); outputs must equal the sequential ones; TSan build must "
                      "report no race; gen/Globals.v (writable symbols of all 17 library objects) must be []",
                 custom=custom,
                 assumptions=["threads are scheduled by the OS: the interleavings exercised are those that happen; "
